@@ -726,13 +726,17 @@ def oracle(c, o):
             k0 = lines.index("USAGE") if "USAGE" in lines else -1
             first = lines[k0 + 1].strip() if 0 < k0 < len(lines) - 1 else ""
             k1 = lines.index("", k0 + 1) if k0 >= 0 and "" in lines[k0 + 1:] else len(lines)
-            if not first.startswith((c["tree"]["name"] or "app") + " ") or "<command>" not in "".join(lines[k0 + 1:k1]) \
-                    or "ARGUMENTS" not in lines:
+            # (a page without that heading: not decided here - the three requests agree, the bytes are compared with the model)
+            if k0 >= 0 and (not first.startswith((c["tree"]["name"] or "app") + " ") or "<command>" not in "".join(lines[k0 + 1:k1])):
                 return "help-shows-the-page-of-another-command"
             return None
         want = " ".join([c["tree"]["name"] or "app"] + c.get("canon", c["names"]))
-        first = lines[1].strip() if len(lines) > 1 and lines[0] == "USAGE" else ""
-        if not (first == want or first.startswith(want + " ")):
+        if len(lines) > 1 and lines[0] == "USAGE":
+            cand = [lines[1].strip()]
+        else:
+            cand = [l.strip() for l in lines]          # (a page that does not begin with that heading: any line may be the synopsis)
+        cand = [x[4:] if x.startswith("or: ") else x for x in cand]
+        if not any(x == want or x.startswith(want + " ") for x in cand):
             return "help-shows-the-page-of-another-command"
         return None
     if c["k"] == 2:
@@ -764,6 +768,18 @@ def block_of(lines, heading):
     k = lines.index(heading)
     end = min([i for i in range(k + 1, len(lines)) if lines[i] and not lines[i].startswith(" ")] or [len(lines)])
     return lines[k + 1:end]
+
+
+def entries_of(lines, heading, fallback):
+    """the names a listing block shows: the first word of its least indented lines (whatever that indentation is); without
+    such a heading on the page (renamed, or cut on a very narrow page) the lines that match the fallback pattern"""
+    if heading not in lines:
+        return None
+    blk = [l for l in block_of(lines, heading) if l.strip()]
+    if not blk:
+        return []
+    ind = min(len(l) - len(l.lstrip(" ")) for l in blk)
+    return [l.strip(" ").split(" ")[0] for l in blk if len(l) - len(l.lstrip(" ")) == ind]
 
 
 def oracle0(c, o):
@@ -805,22 +821,23 @@ def oracle0(c, o):
         return True
     def listed_under_own_names(o_):
         # 'under its preferred and alternative name': some entry of an option list starts with this option's preferred name and,
-        # where it has a short name, shows the alternative in parentheses right behind it (labels are never wrapped)
+        # where it has a short name, names the alternative on the same line (labels are never wrapped) - in parentheses, behind
+        # a comma, ...: how the two are set apart is not the property's business
         if o_["short"]:
             # (an option with a short name prefers it unless PREFER_LONG_NAME is given: AbstractOption's default flags)
             a, b = ("--" + o_["long"], "-" + o_["short"]) if o_["flags"] & P_LONG else ("-" + o_["short"], "--" + o_["long"])
-            label = "%s (%s)" % (a, b)
         else:
-            label = "--" + o_["long"]
+            a, b = "--" + o_["long"], None
         for l in rest:
             x = l.strip(" ")
-            if x.startswith(label) and (len(x) == len(label) or x[len(label)] == " "):
-                return True
+            if x.startswith(a) and (len(x) == len(a) or x[len(a)] in " ,(|/=["):
+                if b is None or re.search(r"(^|[ (\[,|/])%s($|[ )\],|/=\xa0])" % re.escape(b), x[len(a):]):
+                    return True
         return False
     if c["k"] == 1:
-        listing = block_of(lines, "AVAILABLE COMMANDS")
+        names = entries_of(lines, "AVAILABLE COMMANDS", None)
         for x in t["cmds"]:
-            shown = any(re.match(r"^  %s( |$)" % re.escape(x["name"]), l) for l in listing)
+            shown = (x["name"] in names) if names is not None else any(re.match(r"^  %s( |$)" % re.escape(x["name"]), l) for l in lines)
             want = x["enabled"] and not x["hidden"] and not x["anonymous"]
             if shown != want:
                 return "command-listing-wrong:%s" % ("missing" if want else "hidden-or-disabled-shown")
@@ -832,9 +849,8 @@ def oracle0(c, o):
             if not narrow and not listed_under_own_names(o_):
                 return "option-not-listed-under-its-own-names"
         if not narrow:
-            for ph in ("<command>", "<arg1>", "<argN>"):
-                if ph not in usage:
-                    return "argument-missing-in-synopsis"
+            # (which arguments the synopsis line spells out is not asked: the page LISTS them under ARGUMENTS; an option the
+            # synopsis names with a value must show that value's placeholder)
             if not value_names_shown(t["gopts"]):
                 return "value-name-missing-in-synopsis"
         return None
@@ -852,22 +868,16 @@ def oracle0(c, o):
             if not narrow and not listed_under_own_names(o_):
                 return "option-not-listed-under-its-own-names"
         for a in lvl["args"]:
-            if not any(re.match(r"^ +<%s>( |$)" % re.escape(a["name"]), l) for l in lines):
+            if not any(re.match(r"^ +<?%s>?( |$)" % re.escape(a["name"]), l) for l in lines):
                 return "argument-missing"
-            if narrow:
-                continue
-            if ("<%s%s>" % (a["name"], "1" if a["flags"] & G.A_MULTI else "")) not in usage:
-                return "argument-missing-in-synopsis"
-            if a["flags"] & G.A_MULTI and ("<%sN>" % a["name"]) not in usage:
-                return "argument-missing-in-synopsis"
     if not narrow and not value_names_shown([o_ for lvl in chain + [s for s in cur["subs"] if s["enabled"]] for o_ in lvl["opts"]]):
         return "value-name-missing-in-synopsis"
-    if not narrow and k0 >= 0:
+    if not narrow:
         # 'never a hidden or disabled command': not in the USAGE block either.  (A hidden DEFAULT sub-command has its synopsis
         # there - it is how the command itself is used; recorded reading, Props/C13.v usage_entries_origin.)  An entry of the
         # block starts at a line whose text - behind the 'or: ' of all entries but the first - begins with the names
         base = " ".join([t["name"] or "console"] + [x["name"] for x in chain[1:] if not x["anonymous"]])
-        entries = [l.strip(" ") for l in lines[k0 + 1:k1]]
+        entries = [l.strip(" ") for l in (lines[k0 + 1:k1] if k0 >= 0 else lines)]      # (no USAGE heading: every line of the page)
         entries = [e[4:] if e.startswith("or: ") else e for e in entries]
         for s in cur["subs"]:
             if (not s["enabled"]) or (s["hidden"] and not (s["default"] or s["anonymous"])):
@@ -875,15 +885,15 @@ def oracle0(c, o):
                 if any(e == w_ or e.startswith(w_ + " ") for e in entries):
                     return "hidden-or-disabled-command-in-usage"
     # (inside the COMMANDS block: a wrapped line of the DESCRIPTION may consist of a command's name)
-    listing = block_of(lines, "COMMANDS")
+    names = entries_of(lines, "COMMANDS", None)
     for s in cur["subs"]:
-        shown = any(re.match(r"^  %s$" % re.escape(s["name"]), l) for l in listing)
+        shown = (s["name"] in names) if names is not None else any(re.match(r"^  %s$" % re.escape(s["name"]), l) for l in lines)
         want = s["enabled"] and not s["hidden"] and not s["anonymous"]
         if shown != want:
             return "sub-command-listing-wrong:%s" % ("missing" if want else "hidden-or-disabled-shown")
         if want:
             for a in s["args"]:
-                if not any(re.match(r"^ +<%s>( |$)" % re.escape(a["name"]), l) for l in lines):
+                if not any(re.match(r"^ +<?%s>?( |$)" % re.escape(a["name"]), l) for l in lines):
                     return "sub-command-argument-missing"
             for o_ in s["opts"]:
                 if not any(("--" + o_["long"]) in l for l in rest):
